@@ -432,3 +432,18 @@ CLAIMS["C44"] = (
     "6/C44", TRUSTED + "; the harness tokenises the printed text (braces, \\left/\\right, tags); attribute syntax and "
     "character data of MathML are only checked lexically",
     "TLA+ pushdown automata for well-formedness + TLC trace validation")
+
+CLAIMS["C42"] = (
+    "model_checking",
+    "(1) TLC enumerates 15 atoms (incl. the rational 1/0, infinities, nan), every one- and two-argument C API function "
+    "on them and nested combinations; each recipe is built once through C API handles only and once through the C++ "
+    "API: equal dumps, basic_eq, an error code exactly where the C++ side throws and of that exception's class, no "
+    "exception crossing the C boundary.  (2) The C containers are specified as abstract data types (module "
+    "Containers); TLC model-checks / simulates the state machine MC_C42H (invariants in every state), emits operation "
+    "histories, and the recorded outcome of every operation on a real CVecBasic / CSetBasic / CMapBasicBasic (return "
+    "code, returned value's equality class, size) and the final contents must equal the specification's run of the "
+    "same history.  (3) Expression operators (+ - * / unary -, compound assignment, pow, expand, == !=) against the "
+    "core functions on pairs of operands: same object, same exceptions",
+    "6/C42", TRUSTED + "; an out-of-range vector index is answered by an error code in this (assertion) build, the "
+    "unchecked access of a build without assertions is not observable here",
+    "TLA+ abstract data types + state-machine histories + TLC trace validation")
